@@ -161,7 +161,7 @@ reg("C09", "fault_enumeration",
     "then block, spend of a pre-horizon output on a compacted node) on fixed worlds; count mode lists every crash point reached (328 per "
     "world: before/after each file truncate, append+fsync, temp-file rename, file replace, LMDB commit) and EVERY one is crashed; a fresh "
     "process must open the chain, find the head on the previously accepted chain, pass validate(false), equal the replayed reference state, "
-    "converge after re-delivery to the twin's head and state, accept a later block. 372 crash points that fail are recorded known findings "
+    "converge after re-delivery to the twin's head and state, accept a later block; compaction crash points that recover are verified a second time with the compaction deferred until after further blocks. 420 crash points that fail are recorded known findings "
     "(4 root causes, see DESIGN.md); any other failing point, or a listed point failing differently, is a violation.",
     "Process death at the hook (abort, no destructors, LMDB env not closed); the OS page cache survives: torn writes / power loss are out of reach. Worlds are fixed (not seed-derived) so that recorded findings are reproducible bit for bit.")
 
